@@ -110,7 +110,7 @@ def rank_case(draw, tier):
     else:
         x = [draw(st.one_of(st.integers(-2, 2).map(float), norm))
              for _ in range(n)]
-    npt = draw(st.integers(0, 60))
+    npt = draw(st.one_of(st.integers(0, 60), st.sampled_from([0, 1, 1, 2, 3])))
     nd = draw(st.integers(1, 5))
     P = [[draw(st.one_of(st.integers(-2, 2).map(float),
                          st.integers(-2, 2).map(float),
@@ -118,6 +118,9 @@ def rank_case(draw, tier):
                          st.just(float("nan")))) if draw(st.integers(0, 9))
           == 0 else float(draw(st.integers(-2, 2))) for _ in range(nd)]
          for _ in range(npt)]
+    # a point without any coordinate (all NaN), now and then
+    if npt and draw(st.integers(0, 5)) == 0:
+        P[draw(st.integers(0, npt - 1))] = [float("nan")] * nd
     # margins between coordinates: 1, 1e-11, 1e-300 or one ulp
     pscale = draw(st.sampled_from(["unit", "unit", "1e-11", "1e-300", "ulp",
                                    "1e-12*"]))
